@@ -18,6 +18,11 @@ def plan(tier):
            (PG.shutdown_late_error(1), 1, PT), (PG.submit_cancel_shutdown(1, True), 1, PT),
            (PG.shutdown_form(2, "wait", 2, None), 1, dict(kinds=("K",), kill_when="after_shutdown")),
            (PG.shutdown_form(2, "exit", 2, 0.05), 1, dict(kinds=("K",), kill_when="after_shutdown"))]
+    # shutdown from a done-callback (manager thread), from two threads, from a with block whose
+    # body raised
+    pl += [(PG.shutdown_in_callback("shutdown"), 1, PT), (PG.shutdown_in_callback("shutdown_wait"), 1, PT),
+           (PG.with_body_raises(2, 2), 1, PT), (PG.with_body_raises(3, 1), 1, PT),
+           (PG.shutdown_twice(2, True), 1, PT), (PG.shutdown_twice(2, False), 1, PT)]
     # submit racing with shutdown from another thread (either raises or the task runs):
     # starvation policy for the submitting thread + two preemptions
     pl += [(PG.submit_vs_shutdown(1, True), 2, dict(kinds=("P",), starve="parent:user",
@@ -29,7 +34,8 @@ def plan(tier):
         pl += [(PG.shutdown_form(2, "wait", 2, None), 2, dict(kinds=("P",)))]
     # source-line granularity (one preemption at any line of loky run by a parent thread)
     pl += simcheck.line_plan([PG.submit_vs_shutdown(1, True), PG.submit_vs_shutdown(1, False),
-                              PG.shutdown_form(1, "nowait", 2, None)])
+                              PG.shutdown_form(1, "nowait", 2, None), PG.shutdown_twice(2, True),
+                              PG.shutdown_in_callback("shutdown")])
     if tier == "thorough":
         pl += simcheck.line_plan([p for p, _, _ in pl])
         pl += simcheck.line_plan([PG.submit_vs_shutdown(1, True)], bound=2, starve="parent:user")
